@@ -4,7 +4,7 @@ re-detect it; record the outcome in its meta.json."""
 import json, subprocess, re, sys, os
 MAP = {"F01": ["C01", "C15"], "F02": ["C06"], "F03": ["C15", "C12"], "F04": ["C15"], "F05": ["C17", "C15"], "F06": ["C20", "C15"],
        "F07": ["C14", "C15"], "F08": ["C05"], "F09": ["C05"], "F10": ["C16"], "F11": ["C12"], "F12": ["C19"], "F14": ["C04", "C15"],
-       "F15": ["C13"], "F16": ["C05"], "F17": ["C07"]}
+       "F15": ["C13"], "F16": ["C05"], "F17": ["C07"], "F26": ["C14"], "F27": ["C02"]}
 only = sys.argv[1:]
 for f, props in MAP.items():
     if only and f not in only: continue
@@ -18,7 +18,9 @@ for f, props in MAP.items():
         for p in props:
             r = subprocess.run(["/verif/check", p, "--tier", "quick"], stdout=subprocess.PIPE, stderr=subprocess.STDOUT, text=True)
             lines = [l for l in r.stdout.split("\n") if re.search(r"VIOLATION|failing input|no longer checks|-> ok|-> VIOLATION", l)]
-            runs.append({"check": f"./check {p} --tier quick", "exit": r.returncode, "caught": r.returncode == 1, "output": [l[:400] for l in lines[:5]]})
+            inp = r.returncode == 1 and any(l.startswith("VIOLATION") and "no-failing-input-found" not in l for l in lines)
+            lines = [l for l in lines if "no longer checks: Chrono.Pins." not in l] or lines
+            runs.append({"check": f"./check {p} --tier quick", "exit": r.returncode, "caught": r.returncode == 1, "with_failing_input": inp, "output": [l[:400] for l in lines[:5]]})
             print(f, p, "CAUGHT" if r.returncode == 1 else "MISSED", (lines[0] if lines else "")[:200])
     finally:
         subprocess.run("git -C /repo checkout -- .", shell=True)
